@@ -4,6 +4,10 @@ A job is a dict
     {"files": {relative path: text}, "root": "main.djinni", "targets": ["cpp", "java", ...],
      "config": {generator key: {option: value}},          # merged over DEFAULT_CONFIG; "out" is filled in per job
      "want": ["dep"],                                    # optional extras
+     "generate": {"include_dirs": ["{SRC}/inc"]},        # optional: further options of the `generate` section
+     "cwd": "work", "dirs": ["inc/x.yaml"],              # optional: working directory / directories to create (relative to the
+                                                         # job's source directory `{SRC}`, which is also substituted in "root" and,
+                                                         # with "subst": true, in the texts of "files"); default: cwd = source directory
      "hook": "props.c13:hook_export"}                    # optional observer run inside the worker
 and the result
     {"ok": True, "files": {"<target-out-dir>/<relative path>": text}, "dep": [deprecation messages of the AST]}
@@ -41,6 +45,16 @@ def deep_merge(a: dict, b: dict) -> dict:
     return out
 
 
+def _subst(x, src: str):
+    if isinstance(x, str):
+        return x.replace("{SRC}", src)
+    if isinstance(x, dict):
+        return {k: _subst(v, src) for k, v in x.items()}
+    if isinstance(x, list):
+        return [_subst(v, src) for v in x]
+    return x
+
+
 class _Hang(BaseException):
     pass
 
@@ -65,16 +79,21 @@ def run_job(job: dict, jobdir: Path) -> dict:
     for rel, text in job["files"].items():
         p = src / rel
         p.parent.mkdir(parents=True, exist_ok=True)
-        p.write_text(text, encoding="utf-8", newline="")
+        p.write_text(text.replace("{SRC}", str(src)) if job.get("subst") else text, encoding="utf-8", newline="")
+    for rel in job.get("dirs", ()):
+        (src / rel).mkdir(parents=True, exist_ok=True)
     out = jobdir / "out"
     gen_cfg = deep_merge(DEFAULT_CONFIG, job.get("config", {}))
     for k in gen_cfg:
         gen_cfg[k]["out"] = str(out / k)
+    gen_cfg.update(_subst(job.get("generate", {}), str(src)))
+    cwd = src / job.get("cwd", ".")
+    cwd.mkdir(parents=True, exist_ok=True)
     old = os.getcwd()
-    os.chdir(src)
+    os.chdir(cwd)
     try:
         try:
-            ctx = API().configure(options={"generate": gen_cfg}).parse(Path(job["root"]))
+            ctx = API().configure(options={"generate": gen_cfg}).parse(Path(job["root"].replace("{SRC}", str(src))))
         except BaseException as e:  # noqa
             if isinstance(e, (_Hang, KeyboardInterrupt)):
                 raise
